@@ -152,6 +152,54 @@ def split_range(ver, op, v):
     return rng(t), rng(f)
 
 
+ALLOWED_STATEMENTS = (ast.Expr, ast.Assign, ast.AugAssign, ast.If, ast.While, ast.For, ast.Raise, ast.Try, ast.Pass,
+                      ast.ExceptHandler)
+
+
+def check_statement_kinds(fn):
+    """control flow the interpreter does not model (return / break / continue / with / nested definitions ...)
+    anywhere in the method makes the class unrecognised"""
+    for n in ast.walk(fn):
+        if n is fn:
+            continue
+        if isinstance(n, (ast.stmt, ast.ExceptHandler)) and not isinstance(n, ALLOWED_STATEMENTS):
+            raise Unrecognised("%s statement in %s()" % (type(n).__name__.lower(), fn.name), n)
+        if isinstance(n, (ast.Lambda, ast.Yield, ast.YieldFrom, ast.Await, ast.NamedExpr)):
+            raise Unrecognised("%s expression in %s()" % (type(n).__name__.lower(), fn.name), n)
+
+
+def emptiness_test(test):
+    """('empty' | 'nonempty', source of X) for `len(X) == 0`, `not X`, `X`, `len(X) > 0`, `len(X) != 0`; else None"""
+    def length_of(node):
+        if isinstance(node, ast.Call) and isinstance(node.func, ast.Name) and node.func.id == "len" and len(node.args) == 1:
+            return node.args[0]
+        return None
+    if isinstance(test, ast.UnaryOp) and isinstance(test.op, ast.Not) and isinstance(test.operand, (ast.Name, ast.Attribute)):
+        return "empty", src(test.operand)
+    if isinstance(test, (ast.Name, ast.Attribute)):
+        return "nonempty", src(test)
+    if isinstance(test, ast.Compare) and len(test.ops) == 1 and length_of(test.left) is not None \
+            and isinstance(test.comparators[0], ast.Constant):
+        x, k, op = src(length_of(test.left)), test.comparators[0].value, type(test.ops[0])
+        if (op is ast.Eq and k == 0) or (op is ast.Lt and k == 1) or (op is ast.LtE and k == 0):
+            return "empty", x
+        if (op is ast.Gt and k == 0) or (op is ast.NotEq and k == 0) or (op is ast.GtE and k == 1):
+            return "nonempty", x
+    return None
+
+
+def requires_nonempty(st):
+    """the if-statement raises exactly when X is empty: returns the source of X, else None"""
+    e = emptiness_test(st.test)
+    if e is None:
+        return None
+    if e[0] == "empty" and only_raise(st.body) and not contains_raise(st.orelse):
+        return e[1]
+    if e[0] == "nonempty" and only_raise(st.orelse) and not contains_raise(st.body):
+        return e[1]
+    return None
+
+
 def only_raise(stmts):
     """the statement list raises unconditionally: straight-line assignments / expression statements that do not
     touch a stream (building the message), then `raise`"""
@@ -406,6 +454,7 @@ class Reader(Common):
         self.pending_min1 = []
 
     def run(self):
+        check_statement_kinds(self.fn)
         body = strip_doc(self.fn.body)
         self.block(body, (10, 20), top=True)
         if not self.header:
@@ -780,9 +829,9 @@ class Reader(Common):
             f.slot = self.slot_of(f)
         # `if len(xs) == 0: raise` after a loop that collects into xs: at least one
         for st in self.pending_min1:
-            test_names = names_in(st.test) | {"self." + a for a in self_attrs_in(st.test)}
-            hit = [f for f in self.fields if f.card == "many" and (f.listvars & test_names)]
-            if len(hit) == 1 and not (names_in(st.test) - hit[0].listvars - {"len", "self"}):
+            x = requires_nonempty(st)
+            hit = [f for f in self.fields if f.card == "many" and x is not None and x in f.listvars]
+            if len(hit) == 1:
                 hit[0].min1 = True
             else:
                 self.add_approx("value-dependent rejection", st)
@@ -880,14 +929,16 @@ class Writer(Common):
         self._narrow = None
 
     def run(self):
+        check_statement_kinds(self.fn)
         self.block(strip_doc(self.fn.body), (10, 20))
         if self.trailer != {"length", "super", "flush"}:
             raise Unrecognised("write() does not end with length / header / buffer (found %s)" % sorted(self.trailer),
                                self.fn)
         for st in self.pending:
-            attrs = {norm_slot(a) for a in self_attrs_in(st.test)}
-            hit = [f for f in self.fields if f.card == "many" and f.slot in attrs]
-            if len(hit) == 1 and len(attrs) == 1:
+            x = requires_nonempty(st)
+            slot = norm_slot(x[5:]) if x is not None and x.startswith("self.") and "." not in x[5:] else None
+            hit = [f for f in self.fields if f.card == "many" and slot is not None and f.slot == slot]
+            if len(hit) == 1:
                 hit[0].min1 = True
             else:
                 self.add_approx("value-dependent refusal to write", st)
